@@ -614,7 +614,7 @@ var skipInit = map[string]bool{
 	"compress/flate": true, "compress/gzip": true, "os/user": true, "os/exec": true,
 	"internal/abi": true, "internal/bytealg": true, "hash/crc32": true, "crypto/sha256": true, "crypto/sha512": true,
 	"crypto/sha1": true, "crypto/md5": true, "crypto": false, "time": true, "internal/oserror": false,
-	"net/netip": true, "net/url": false, "vendor/golang.org/x/net/http/httpguts": true, "net/http/httputil": true,
+	"net/netip": true, "net/url": false, "net/http/httputil": true,
 	"golang.org/x/sync/singleflight": true, "crypto/rand": true, "math/rand": true, "math/rand/v2": true,
 	"internal/chacha8rand": true, "encoding/base64": false, "fmt": true, "internal/fmtsort": true,
 	"regexp": true, "regexp/syntax": true, "text/template": true, "html/template": true, "html": true,
